@@ -62,3 +62,16 @@ Theorem C15_source_tie_refine_options : forall n r, GCli.norm_refine n r = Cli.n
 Proof. exact tie_norm_refine. Qed.
 Theorem C15_source_tie_plan : forall o n, GCli.run_plan o n = Cli.run_plan o n.
 Proof. exact tie_run_plan. Qed.
+
+(* the output-directory validation is the one in the source: Gen/GCliVd.v is the decision tree of
+   bblean/cli.py:_validate_output_dir extracted on every run (conditions exists / is_dir /
+   any(iterdir) / overwrite; leaves: nothing, RuntimeError, rmtree followed by mkdir), and both
+   clustering commands call it as _validate_output_dir(out_dir, overwrite) *)
+From BB Require Import Gen.GCliVd Proofs.GenTieCliVd.
+From Coq Require Import String List.
+Theorem C15_source_tie_validate_out : forall e d n o,
+  GCliVd.validate_out e d n o = Cli.validate_out e d n o.
+Proof. exact tie_validate_out. Qed.
+Theorem C15_source_tie_validate_sites :
+  In "_run"%string GCliVd.validate_call_sites /\ In "_multiround"%string GCliVd.validate_call_sites.
+Proof. exact tie_validate_sites. Qed.
